@@ -10,7 +10,9 @@ assembly `spec.assembly.record_assemble` (which must also reproduce the rows han
               <= 3 pages (also inside a row);
   c15.files   whole files from the independent encoder `spec.pqwrite` (LIST 3-level layout, MAP key_value
               layout; v1 pages split anywhere, v2 pages split at row starts as the format requires; PLAIN or
-              dictionary values; 1..2 row groups) through `ParquetFile(f).to_pandas()`.
+              dictionary values; 1..2 row groups) through `ParquetFile(f).to_pandas()`; plus chunks of 3 and 4
+              pages with unequal rows per page (v2 + dictionary, every page holding a null; one or two row groups)
+              that exercise the row cursor carried from page to page.
 
 Shapes: optional/required LIST<optional/required INT32>, optional/required MAP<required UTF8, optional INT64>.
 Contract: post(result) := result rows == record_assemble(def, rep, values, ...) == rows given to the encoder
@@ -218,9 +220,10 @@ def _kernel_worker(args):
 # ------------------------------------------------------------------------------------------------
 # group c15.files
 # ------------------------------------------------------------------------------------------------
-def build_file(shape, outer_opt, elem_opt, table, cuts, version, use_dict, rg_split):
+def build_file(shape, outer_opt, elem_opt, table, cuts, version, use_dict, rg_split, cuts2=()):
     """-> (file bytes, expected rows).  rg_split: None or the row index where a second row group starts;
-    `cuts` are entry positions inside the FIRST row group (the second one is a single page)."""
+    `cuts` are entry positions inside the FIRST row group, `cuts2` entry positions inside the second one
+    (relative to its first entry; default: a single page)."""
     from spec import pqwrite as W
     rows = materialise(shape, table)
     if shape == 'list':
@@ -237,8 +240,9 @@ def build_file(shape, outer_opt, elem_opt, table, cuts, version, use_dict, rg_sp
     lay = {(0, 'c'): W.ChunkLayout(pages=W.split_pages(n0, cuts, version=version, encoding=enc),
                                    dictionary='auto' if use_dict else None)}
     if rg_split is not None:
-        lay[(1, 'c')] = W.ChunkLayout(pages=[W.PageLayout(version=version, encoding=enc)],
-                                      dictionary='auto' if use_dict else None)
+        pages2 = (W.split_pages(sum(ent[rg_split:]), cuts2, version=version, encoding=enc) if cuts2 else
+                  [W.PageLayout(version=version, encoding=enc)])
+        lay[(1, 'c')] = W.ChunkLayout(pages=pages2, dictionary='auto' if use_dict else None)
     data = W.encode_file([col], [{'c': r} for r in rgs], lay)
     return data, rows
 
@@ -264,7 +268,7 @@ normalise = _ns['normalise']
 def file_case(fastparquet, case):
     import io
     from spec import assembly, pqwrite as W
-    shape, outer_opt, elem_opt, table, cuts, version, use_dict, rg_split = case
+    shape, outer_opt, elem_opt, table, cuts, version, use_dict, rg_split = case[:8]
     data, rows = build_file(*case)
     # oracle cross-check: record assembly of the shredded levels gives back the rows (engine assertion, not a contract)
     for lv in _levels(shape, outer_opt, elem_opt, rows)[-1:]:
@@ -283,12 +287,18 @@ def file_case(fastparquet, case):
 
 
 def file_features(case):
-    shape, outer_opt, elem_opt, table, cuts, version, use_dict, rg_split = case
+    shape, outer_opt, elem_opt, table, cuts, version, use_dict, rg_split = case[:8]
+    cuts2 = tuple(case[8]) if len(case) > 8 else ()
     ent = entries_of(table)
     kinds = continuation_kinds(table if rg_split is None else table[:rg_split], cuts)
+    midchunk = whole_page_midchunk(kinds)
+    if cuts2:
+        kinds2 = continuation_kinds(table[rg_split:], cuts2)
+        midchunk = midchunk or whole_page_midchunk(kinds2)
+        kinds = kinds + kinds2
     # per leaf and page: does the page hold an entry without a value (v2 header num_nulls > 0)?  per row group and leaf:
     # is there any value at all (else an 'auto' dictionary page has zero entries)?
-    groups = [(table, cuts)] if rg_split is None else [(table[:rg_split], cuts), (table[rg_split:], ())]
+    groups = [(table, cuts)] if rg_split is None else [(table[:rg_split], cuts), (table[rg_split:], cuts2)]
     page_no_nulls, empty_dictionary = False, False
     for t, cs in groups:
         leaves = [[]] if shape == 'list' else [[], []]          # list: element leaf; map: key leaf, value leaf
@@ -309,9 +319,10 @@ def file_features(case):
     return {
         'shape': shape, 'outer_optional': outer_opt, 'elem_optional': elem_opt, 'version': version,
         'values': 'dict' if use_dict else 'plain', 'table': table_str(table), 'rows': len(table),
-        'cuts': ','.join(map(str, cuts)), 'pages': len(cuts) + 1, 'row_groups': 1 if rg_split is None else 2,
+        'cuts': ','.join(map(str, cuts)) + ('|' + ','.join(map(str, cuts2)) if cuts2 else ''),
+        'pages': max(len(cuts), len(cuts2)) + 1, 'row_groups': 1 if rg_split is None else 2,
         'rg_split': -1 if rg_split is None else rg_split,
-        'continuation': '>'.join(kinds) or 'none', 'whole_page_midchunk': whole_page_midchunk(kinds),
+        'continuation': '>'.join(kinds) or 'none', 'whole_page_midchunk': midchunk,
         'has_null_row': 'N' in table, 'has_empty': 'E' in table,
         'has_null_elem': any('n' in r for r in table if r not in ('N', 'E')),
         'only_null_rows': all(r == 'N' for r in table),
@@ -371,13 +382,74 @@ def enumerate_files(tier):
                             yield (shape, outer_opt, elem_opt, table, cuts, version, (ti + rs) % 2 == 0, rs)
 
 
+# ---- family "row cursor over many pages": 3 and 4 pages per chunk, unequal rows per page -------------------------
+MP_VECTORS = [v for v in itertools.product((1, 2, 3), repeat=3)] + [v for v in itertools.product((1, 2), repeat=4)]
+
+
+def multipage_tables(shape, outer_opt, elem_opt, tier):
+    """(table, cuts at page starts) with 3 or 4 pages holding MP_VECTORS rows each.  Every page carries one 'null
+    carrier' row (null row N, empty E, a row with a null element vn / n) at its first or last position - the same
+    carrier in all pages or rotating from page to page - so that each page of each leaf has num_nulls > 0 where the
+    schema allows (today's reader refuses v2 pages without nulls: known finding); the other rows cycle through
+    v, vv, vnv|vvv so that rows, entries and values per page all differ."""
+    cyc = ['v', 'vv', 'vnv' if elem_opt else 'vvv']
+    carriers = (['N'] if outer_opt else []) + ['E'] + (['vn', 'n'] if (elem_opt and shape == 'list') else [])
+    seen = set()
+    for vi, vec in enumerate(MP_VECTORS):
+        for c0 in range(len(carriers)):
+            for rotate in (False, True):
+                for pos in ('first', 'last'):
+                    for phase in ((0, 1, 2) if tier == 'thorough' else ((vi + c0) % 3, (vi + c0 + 1) % 3)):
+                        table, cuts, k = [], [], phase
+                        for pi, r in enumerate(vec):
+                            if pi:
+                                cuts.append(sum(entries_of(table)))
+                            rows = [cyc[(k + j) % 3] for j in range(r)]
+                            k += r
+                            rows[0 if pos == 'first' else r - 1] = carriers[(c0 + pi) % len(carriers)] if rotate else carriers[c0]
+                            table.extend(rows)
+                        key = (tuple(table), tuple(cuts))
+                        if key not in seen:
+                            seen.add(key)
+                            yield key
+
+
+EXTRA_RG = ('vv', 'E', 'v')         # rows of the additional single-page row group of the two-row-group variants
+
+
+def enumerate_multipage(tier):
+    thorough = tier == 'thorough'
+    for shape, outer_opt, elem_opt in SHAPES:
+        extra = tuple(r for r in EXTRA_RG)
+        for ti, (table, cuts) in enumerate(multipage_tables(shape, outer_opt, elem_opt, tier)):
+            if not outer_opt and not thorough and ti % 8:
+                continue            # required outer collection: v2 reads fail today whatever the layout (known finding): a sample
+            # one row group, DATA_PAGE_V2, dictionary values, pages at row starts
+            yield (shape, outer_opt, elem_opt, table, cuts, 2, True, None)
+            # two row groups: the multi-page chunk is the first / the second one
+            if thorough or ti % 3 == 0:
+                yield (shape, outer_opt, elem_opt, table + extra, cuts, 2, True, len(table))
+                yield (shape, outer_opt, elem_opt, extra + table, (), 2, True, len(extra), cuts)
+            # v1 with the same layout, and with every page boundary moved one entry INTO the row that starts there
+            # (v1 pages may start inside a row; v2 pages may not)
+            if thorough or ti % 4 == 1:
+                yield (shape, outer_opt, elem_opt, table, cuts, 1, True, None)
+                ne = sum(entries_of(table))
+                inside = tuple(sorted(set(c + 1 for c in cuts if c + 1 < ne)))
+                starts = set(itertools.accumulate(entries_of(table)))
+                if inside and any(c not in starts for c in inside):
+                    yield (shape, outer_opt, elem_opt, table, inside, 1, (ti // 4) % 2 == 0, None)
+
+
 def risky(case):
     """Cases in which the reader may store beyond its arrays (known row-index defect): isolate in a forked child."""
-    shape, outer_opt, elem_opt, table, cuts, version, use_dict, rg_split = case
-    if not cuts:
+    shape, outer_opt, elem_opt, table, cuts, version, use_dict, rg_split = case[:8]
+    cuts2 = tuple(case[8]) if len(case) > 8 else ()
+    if not cuts and not cuts2:
         return False
     t0 = table if rg_split is None else table[:rg_split]
-    return any(k != 'row_start' for k in continuation_kinds(t0, cuts))
+    return any(k != 'row_start' for k in continuation_kinds(t0, cuts)) or \
+        bool(cuts2 and any(k != 'row_start' for k in continuation_kinds(table[rg_split:], cuts2)))
 
 
 def _in_fork(fn, *a):
@@ -539,10 +611,17 @@ def run_bounded(ctx):
     ctx.bounded_group(G_FILES, rule=(
         "whole files from spec.pqwrite through ParquetFile.to_pandas(): 6 shapes x tables (%s) x (v1: every split of the "
         "level entries into <= 3 pages, also inside a row; v2: every split at row starts) x PLAIN/dictionary x 1..2 row "
-        "groups (split at every row boundary, first group in 1..2 pages)" % (
+        "groups (split at every row boundary, first group in 1..2 pages)  ||  ROW CURSOR OVER MANY PAGES: chunks of 3 "
+        "pages holding (r1,r2,r3) in {1,2,3}^3 rows and of 4 pages holding {1,2}^4 rows (3..9 rows), DATA_PAGE_V2 with "
+        "dictionary values and pages at row starts; every page carries a null carrier (null row / empty collection / row "
+        "with a null element; same carrier in all pages or rotating; first or last row of the page) so that each leaf of "
+        "each page has num_nulls > 0 on optional outer LIST / MAP (the layouts today's reader accepts), other rows cycle "
+        "v, vv, vnv; 6 shapes (required outer: a sample, all inside a known finding); as one row group, as the first and "
+        "as the second of two row groups (a third of the tables); a quarter also as v1 pages with the same boundaries and with every "
+        "boundary moved one entry INTO the row starting there (v2 pages may not start inside a row)" % (
             "<= 2 rows: collection lengths 0..3; 3 rows: lengths 0..2" if thorough else
             "<= 2 rows: lengths 0..2 all and 0..3 every third; 3 rows: lengths 0..1")))
-    cases = list(enumerate_files(ctx.tier))
+    cases = list(enumerate_files(ctx.tier)) + list(enumerate_multipage(ctx.tier))
     indexed = list(enumerate(cases))
     nb = nw * 4
     results = {}
